@@ -469,6 +469,20 @@ func ingAnnexBSafe(vc string, units [][]byte, three bool) []byte {
 	return proj.WriteAnnexB(units, sc, 0)
 }
 
+// ingAudioPt: the RTP payload type of the audio track.  G.711 at 8 kHz has the static types 0 (PCMU) and 8 (PCMA) of
+// RFC 3551, which is what cameras and ffmpeg send; every other scenario uses a dynamic one.
+func ingAudioPt(sc *ingScenario) int {
+	if sc.Arate == 8000 && sc.Sc%2 == 0 {
+		switch sc.Ac {
+		case "pcmu":
+			return 0
+		case "pcma":
+			return 8
+		}
+	}
+	return 97
+}
+
 func ingPt(codec string) base.AvPacketPt {
 	switch codec {
 	case "avc":
@@ -571,10 +585,9 @@ func ingSdpText(sc *ingScenario) string {
 		s += "a=fmtp:97 profile-level-id=1;mode=AAC-hbr;sizelength=13;indexlength=3;indexdeltalength=3; config=" +
 			strings.ToUpper(hex.EncodeToString(ingAscBytes(sc.Asc))) + "\r\n"
 		s += fmt.Sprintf("a=control:streamid=%d\r\n", id)
-	case "pcma":
-		s += fmt.Sprintf("m=audio 0 RTP/AVP 97\r\na=rtpmap:97 PCMA/%d/1\r\na=control:streamid=%d\r\n", sc.Arate, id)
-	case "pcmu":
-		s += fmt.Sprintf("m=audio 0 RTP/AVP 97\r\na=rtpmap:97 PCMU/%d/1\r\na=control:streamid=%d\r\n", sc.Arate, id)
+	case "pcma", "pcmu":
+		pt := ingAudioPt(sc)
+		s += fmt.Sprintf("m=audio 0 RTP/AVP %d\r\na=rtpmap:%d %s/%d/1\r\na=control:streamid=%d\r\n", pt, pt, strings.ToUpper(sc.Ac), sc.Arate, id)
 	case "opus":
 		s += fmt.Sprintf("m=audio 0 RTP/AVP 97\r\na=rtpmap:97 opus/%d/2\r\na=control:streamid=%d\r\n", sc.Arate, id)
 	}
@@ -588,7 +601,7 @@ func ingRtpPackets(sc *ingScenario) (pk [][]byte, trk []string) {
 		f := &sc.Frames[p.F-1]
 		codec, pt, ssrc := sc.Vc, 96, uint32(0x11223344)
 		if f.Trk == "a" {
-			codec, pt, ssrc = sc.Ac, 97, 0x55667788
+			codec, pt, ssrc = sc.Ac, ingAudioPt(sc), 0x55667788
 		}
 		var units [][]byte
 		for _, ui := range p.Us {
